@@ -105,11 +105,12 @@ def _line_of(text, pos):
 
 def overindented(rng, src, spans, k):
     """k variants of the VALID canonical program `src` (LF line ends, 4-space indentation, token spans from the real lexer): after a
-    physical line on which a statement is complete (no open bracket, last token not one of ， 、 { 【 ： ？, not a 输入 line) a line is
+    physical line on which a statement is complete (no open bracket, last token not one of ， 、 { 【 ： ？; 输入 lines included since the
+    repair of ParseExecBlock's input-state error, 07aabbd — `after_input_line` below aims at them) a line is
     inserted that is indented deeper than the statement it follows (by one or two steps, or deeper than every line before it) — 4 spaces or TAB per step (TAB: the whole program is re-indented
     with TABs), directly or after a blank / comment line.  The parser leaves every open block at such a
-    line (no block has that indentation) and `ParseAST` finds tokens left over: syntax error 20 positioned ON the inserted line at
-    its first token.  (Not started with a comma: `tryConsume` swallows one comma even when the statement is complete, and the first
+    line (no block has that indentation) and `ParseAST` finds tokens left over — or, right after an 输入 line, `ParseExecBlock` finds its
+    block ended while still in the 输入 section —: syntax error 20 positioned ON the inserted line at its first token.  (Not started with a comma: `tryConsume` swallows one comma even when the statement is complete, and the first
     LEFT-OVER token then is the one after it.)
     Returns [(text, cursor of the expected error, 0-based physical line of the expected error)]."""
     if not spans:
@@ -136,7 +137,6 @@ def overindented(rng, src, spans, k):
             indent[ln] = len(lead) // 4
     cands = []
     depth = 0
-    input_lines = set(lno(a) for a, b, ty in spans if ty == T_INPUTW)
     for i, (a, b, ty) in enumerate(spans):
         if ty in OPENERS:
             depth += 1
@@ -146,7 +146,7 @@ def overindented(rng, src, spans, k):
         nxt = spans[i + 1] if i + 1 < len(spans) else None
         if nxt is not None and lno(nxt[0]) <= endl:
             continue                       # not the last token on its line
-        if depth != 0 or ty in NO_BREAK_AFTER or endl in input_lines:
+        if depth != 0 or ty in NO_BREAK_AFTER:
             continue
         if nxt is not None and nxt[2] in CLOSERS:
             continue
@@ -173,6 +173,86 @@ def overindented(rng, src, spans, k):
         res = '\n'.join(new_ls)
         cursor = len('\n'.join(ls[:endl + 1] + between)) + 1 + len(unit * steps)
         out.append((res, cursor, _line_of(res, cursor)))
+    return out
+
+
+def _width(t):
+    return sum(2 if ord(c) > 0x2E80 else 1 for c in t)
+
+
+# valid programs with 输入 lines at several depths (the corpus has them too; these make sure every run meets each shape)
+INPUT_BASES = ['如何算？\n    输入N\n    输出 N', '如何算？\n    输入甲、乙\n    令和设为甲+乙\n    输出 和\n（显示：1）',
+               '定义盒：\n    其甲设为1\n    如何取？\n        输入N、M\n        输出 N\n（显示：2）', '输入甲\n（显示：甲）',
+               '如何外？\n    输入N\n    如何内？\n        输入M\n        输出 M\n    输出 N', '（显示：0）\n如何算？\n    输入N\n    输出 N\n    拦截异常：\n        输出 0']
+
+
+def after_input_line(rng, src, spans, k):
+    """k variants of the VALID canonical program `src` (as for `overindented`) in which the exec block of a method (or of the file) ends
+    while it is still in its 输入 section — `ParseExecBlock` leaves its loop in the input state and answers syntax error 20 at the PEEK
+    token (repair 07aabbd; before it: at the last token of the 输入 line):
+      over    a line indented deeper than the 输入 line is inserted right after it (directly or after a blank / comment line),
+      dedent  … a line indented less than the 输入 line (the 输入 line is indented),
+      last    the text ends with the 输入 line (nothing, blanks, line ends or a comment after it): the error is at the end of the text.
+    Returns [(text, cursor, 0-based physical line, caret column, kind)]."""
+    if not spans:
+        return []
+    line_start = [0] + [i + 1 for i, c in enumerate(src) if c == '\n']
+
+    def lno(pos):
+        lo, hi = 0, len(line_start) - 1
+        while lo < hi:
+            mid = (lo + hi + 1) // 2
+            if line_start[mid] <= pos:
+                lo = mid
+            else:
+                hi = mid - 1
+        return lo
+    indent = {}
+    last_on = {}
+    for a, b, ty in spans:
+        ln = lno(a)
+        lead = src[line_start[ln]:a]
+        if ln not in indent and lead.strip(' ') == '' and len(lead) % 4 == 0:
+            indent[ln] = len(lead) // 4
+        last_on[ln] = (a, b, ty)
+    cands = []
+    for a, b, ty in spans:
+        ln = lno(a)
+        if ty != T_INPUTW or ln not in indent or src[line_start[ln]:a].strip(' ') != '':
+            continue
+        la, lb, lty = last_on[ln]
+        if lty in NO_BREAK_AFTER or lty == T_INPUTW or lno(max(la, lb - 1)) != ln:
+            continue
+        cands.append((ln, indent[ln]))
+    out = []
+    for _ in range(k):
+        if not cands:
+            break
+        endl, cur = rng.choice(cands)
+        kind = rng.choice(['over', 'dedent', 'last'] if cur > 0 else ['over', 'last'])
+        tab = rng.random() < 0.5
+        unit = '\t' if tab else '    '
+        text = src
+        if tab:
+            ls = src.split('\n')
+            for ln, v in indent.items():
+                ls[ln] = '\t' * v + ls[ln][4 * v:]
+            text = '\n'.join(ls)
+        ls = text.split('\n')
+        if kind == 'last':
+            tail = rng.choice(['', '', '\n', '\n\n', '\n注：说明', '\n' + unit * cur + '// x', '\n/* 多\n行 */', '\r\n', '\n' + unit * cur])
+            res = '\n'.join(ls[:endl + 1]) + tail
+            cursor = len(res)
+            k0 = max(res.rfind('\n'), res.rfind('\r')) + 1
+            out.append((res, cursor, _line_of(res, cursor), _width(res[k0:].lstrip(' \t')), kind))
+            continue
+        steps = cur + rng.choice([1, 1, 2]) if kind == 'over' else rng.randrange(cur)
+        between = rng.choice([[], [], [], [''], ['注：说明'], [unit * steps + '// x'], ['/* 多\n行 */']])
+        body = rng.choice(OVER_BODIES)
+        new_ls = ls[:endl + 1] + between + [unit * steps + body] + ls[endl + 1:]
+        res = '\n'.join(new_ls)
+        cursor = len('\n'.join(ls[:endl + 1] + between)) + 1 + len(unit * steps)
+        out.append((res, cursor, _line_of(res, cursor), 0, kind))
     return out
 
 
